@@ -12,10 +12,11 @@ compile/ast/folder.go. Every theorem is about these definitions, which the drive
 The property is FALSE of the current code as a whole-program statement (DESIGN §6 findings 8, 23
 and two further classes found here): the `…_counter` theorems are decided witnesses on the mirror,
 the `…_sound` theorems are the per-rule statements that do hold. Exception *identity* (which
-message) is not modelled (`none` is any exception); PropFold (final locals) is not modelled — both
-are covered only by the metamorphic direct oracle of the suite.
+message) is not modelled (`none` is any exception); of PropFold (final locals) only the substitution step is modelled
+(`propfold_subst_sound_partial`) — both are otherwise covered by the metamorphic direct oracle.
 -/
 import Gsu.Proofs.LangFold
+import Gsu.Proofs.LangProp
 import Gsu.Gen.Folder
 namespace Gsu.Props.C30
 open Gsu.LangFold
@@ -123,6 +124,24 @@ theorem fold_bitand_32bit_counter :
     let e := Expr.nary .bitand [.var 0, .var 1, .const (.int 4294967295)]
     let env := [Val.int 4294967296, Val.int 4294967296]
     eval exactA env e = some (.int 0) ∧ evalFolded exactA env e = some (.int 4294967296) := by decide
+
+/-- Constant propagation (PropFold): replacing every read of a local by the constant it holds
+(`Agrees`: the invariant single assignment gives — the local is assigned that constant and never
+modified) leaves the value or exception of any expression unchanged, in every environment.
+PARTIAL w.r.t. "programs with single-assignment locals": the statement-level part — that the
+parser's `final` table only contains locals for which `Agrees` holds at every read (no other
+assignment, not a loop or catch variable, not modified by ++ / op=) — is not modelled; it is
+covered by the PropFold programs of the suite (loops of every form, try/catch, ++, op=, =~). -/
+theorem propfold_subst_sound_partial (A : Arith) (σ : Nat → Option Val) (env : List Val)
+    (h : Agrees σ env) (e : Expr) : eval A env (subst σ e) = eval A env e :=
+  subst_sound h e
+
+-- non-vacuity: a = 5 propagated into `x + a`
+example : Agrees (fun i => if i = 1 then some (.int 5) else none) [.int 2, .int 5] := by
+  intro i c h
+  by_cases hi : i = 1
+  · subst hi; simp at h; subst h; rfl
+  · simp [hi] at h
 
 /-! (G) the tables of folder.go as they are today -/
 
